@@ -7,7 +7,8 @@
  *   rng15_replay <script> <out.ndjson>
  *
  * Script (text, written by tools/checks/c15.py):
- *   H <id> <seq|par> <nthreads>    start of a history; threads are 1..nthreads,
+ *   H <id> <seq|par> <nthreads> [<npar>]
+ *                                  start of a history; threads are 1..nthreads,
  *                                  every one a newly created pthread
  *   S <t> <seed as 16 hex digits>  cmb_random_initialize(seed) on thread t
  *   C <t> <function> <a>           one call of <function> with parameter set a
@@ -17,7 +18,9 @@
  * order (threads hand over to each other).  Mode par: all threads are released
  * together and every thread makes its own calls as fast as it can (true
  * concurrency); lines are then recorded in the order in which the calls
- * started.
+ * started.  With <npar> only threads 1..npar run like that; the threads above
+ * npar start when those have finished and make their calls one after the other
+ * in script order (a thread that is alone in the program while it draws).
  *
  * Trace: {"op":"begin","h":id,"nt":n,"mode":"seq"}, {"op":"seed","t":t,"s":[4 limbs]},
  * {"op":"call","t":t,"f":name,"a":a,"r":[4 limbs]}, {"op":"term","t":t}, {"op":"end","h":id};
@@ -112,11 +115,11 @@ static const struct { const char *name; rfun fn; } ftab[] = {
 
 struct op { int t, kind, f, a, gi; uint64_t seed; };
 struct rec { uint64_t ticket, val; };
-struct hist { int id, nt, nops; bool par; struct op ops[MAXOPS]; };
+struct hist { int id, nt, nops, npar; bool par; struct op ops[MAXOPS]; };
 
 static struct hist H;
 static struct rec recs[MAXOPS];
-static atomic_int turn;
+static atomic_int turn, par_done;
 static atomic_ullong ticket;
 static pthread_barrier_t bar;
 static FILE *out;
@@ -130,23 +133,30 @@ static void crash_handler(int sig)
 static void *worker(void *arg)
 {
     const int me = (int)(intptr_t)arg;
-    if (H.par) pthread_barrier_wait(&bar);
+    const bool free_run = H.par && me <= H.npar;
+    if (free_run) pthread_barrier_wait(&bar);
+    else if (H.par) {
+        /* a late thread: wait until the concurrent part is over */
+        unsigned spins = 0;
+        while (atomic_load_explicit(&par_done, memory_order_acquire) != H.npar) { if (++spins > 200u) sched_yield(); }
+    }
     for (int i = 0; i < H.nops; i++) {
         const struct op *o = &H.ops[i];
         if (o->t != me) continue;
-        if (H.par) recs[i].ticket = atomic_fetch_add(&ticket, 1);
+        if (free_run) recs[i].ticket = atomic_fetch_add(&ticket, 1);
         else {
             unsigned spins = 0;
             while (atomic_load_explicit(&turn, memory_order_acquire) != o->gi) { if (++spins > 200u) sched_yield(); }
-            recs[i].ticket = (uint64_t)o->gi;
+            recs[i].ticket = (uint64_t)MAXOPS + (uint64_t)o->gi;
         }
         switch (o->kind) {
         case K_SEED: cmb_random_initialize(o->seed); recs[i].val = o->seed; break;
         case K_TERM: cmb_random_terminate(); recs[i].val = 0; break;
         default: recs[i].val = ftab[o->f].fn(o->a); break;
         }
-        if (!H.par) atomic_store_explicit(&turn, o->gi + 1, memory_order_release);
+        if (!free_run) atomic_store_explicit(&turn, o->gi + 1, memory_order_release);
     }
+    if (free_run) atomic_fetch_add_explicit(&par_done, 1, memory_order_release);
     return NULL;
 }
 
@@ -165,8 +175,13 @@ static void limbs(char *buf, uint64_t v)
 static void run_history(void)
 {
     pthread_t th[MAXT + 1];
-    atomic_store(&turn, 0); atomic_store(&ticket, 0);
-    if (H.par) pthread_barrier_init(&bar, NULL, (unsigned)H.nt);
+    atomic_store(&turn, 0); atomic_store(&ticket, 0); atomic_store(&par_done, 0);
+    if (H.par) {
+        /* the ordered calls (threads above npar) are numbered among themselves */
+        int k = 0;
+        for (int i = 0; i < H.nops; i++) if (H.ops[i].t > H.npar) H.ops[i].gi = k++;
+        pthread_barrier_init(&bar, NULL, (unsigned)H.npar);
+    }
     for (int t = 1; t <= H.nt; t++) {
         if (pthread_create(&th[t], NULL, worker, (void *)(intptr_t)t) != 0) { fprintf(stderr, "pthread_create failed\n"); _exit(2); }
     }
@@ -226,8 +241,10 @@ int main(int argc, char **argv)
             if (c == '#' || c == '\n') continue;
             if (c == 'H') {
                 char mode[16];
-                if (inh || sscanf(line + 1, "%d %15s %d", &H.id, mode, &H.nt) != 3) bad_script(ln, "bad H line");
+                H.npar = -1;
+                if (inh || sscanf(line + 1, "%d %15s %d %d", &H.id, mode, &H.nt, &H.npar) < 3) bad_script(ln, "bad H line");
                 if (H.nt < 1 || H.nt > MAXT) bad_script(ln, "thread count");
+                if (H.npar < 0 || H.npar > H.nt) H.npar = H.nt;
                 H.par = (strcmp(mode, "par") == 0);
                 if (!H.par && strcmp(mode, "seq") != 0) bad_script(ln, "mode");
                 H.nops = 0; inh = true;
